@@ -579,6 +579,7 @@ def run(tier):
             # overwrite them): regions handed to the transform's helpers are disjoint, or the subsets disagree (C01's K7)
             if "alg/sha256.c" in prog.units:
                 c01.k7_regions(prog, rep, only=("alg/sha256.c",))
+                c01.k11_vect(prog, rep, only=("alg/sha256.c",))
             # the AES-CTR siblings must agree on counter layout and position bookkeeping (rules shared with C02)
             from . import c02
             c02.l1_l3(prog, rep)
